@@ -1,0 +1,17 @@
+//go:build verif
+
+// Contracts for package exit, read by /verif/govc. Comment-only.
+
+package exit
+
+// _exit is os.Exit unless a test stubbed it; the real process exit is outside any contract.
+//@ callback global:internal/exit._exit
+//@   modifies $user
+
+//@ func internal/exit.With
+//@   props C06
+//@   flags nopanic
+//@   requires _exit != nil
+//@   track EX = global internal/exit._exit
+//@   modifies $user
+//@   ensures #EX == 1 && EX.arg0[0] == code
